@@ -639,6 +639,7 @@ func firstLine(s string) string {
 func scenarios(tier string) []scenario {
 	var out []scenario
 	inner := []string{"pass", "reqerr", "reserr", "skip", "rterr", "hijack-req", "hijack-res", "rterr+hijack-res", "skip+hijack-res", "reqerr+hijack-res", "reqerr+reserr", "mlreqerr", "mlreserr", "mlreqerr+mlreserr", "rtclone", "skip+api+skiplog", "preapi+skip"}
+	core := map[string]bool{"pass": true, "reqerr": true, "reserr": true, "skip": true, "rterr": true, "hijack-req": true, "hijack-res": true, "rtclone": true}
 	// plain: all behaviour sequences of length 1..2 (3 thorough)
 	maxLen := 2
 	if tier == "thorough" {
@@ -653,6 +654,15 @@ func scenarios(tier string) []scenario {
 			beh = append(beh, inner[x])
 			if isHijack(inner[x]) && i != len(seq)-1 {
 				return // nothing follows a hijack
+			}
+		}
+		if len(seq) >= 3 {
+			// sequences of three exchanges over the eight basic behaviours only (the combinations and spelling
+			// variants run in the sequences of one and two)
+			for _, b := range beh {
+				if !core[b] {
+					return
+				}
 			}
 		}
 		out = append(out, scenario{Mode: "plain", Beh: beh})
